@@ -121,6 +121,9 @@ pub const NOPT: usize = 5;
 /// base time of round 0; the default makes the rounds cross zero; the "large" pass uses 1.5e9 ns,
 /// where consecutive timestamps differ by less than one f32 ulp of their magnitude (a comparison
 /// done in f32 seconds instead of i64 nanoseconds would see them as equal)
+/// command environment of the state engines: 0 = no commands; 1 / 2 = a command far newer than
+/// every state sits on side 1 / side 2 (it must not influence the states or their timestamps)
+pub static CMD_ENV: std::sync::atomic::AtomicU8 = std::sync::atomic::AtomicU8::new(0);
 pub static TIME_BASE: std::sync::atomic::AtomicI64 = std::sync::atomic::AtomicI64::new(-25);
 fn opt_time(round: usize, term: usize, opt: usize) -> i64 {
     let base = TIME_BASE.load(std::sync::atomic::Ordering::Relaxed) + 10 * round as i64;
@@ -184,6 +187,12 @@ pub fn run_rounds(kind: Kind, mask: u32, rounds: &[Vec<usize>], mode: Mode) -> V
         if mask >> i & 1 == 1 {
             connect(dev.term(i), &xs[i]);
         }
+    }
+    let cmd_env = CMD_ENV.load(std::sync::atomic::Ordering::Relaxed) as usize;
+    if mode == Mode::State && cmd_env >= 1 && cmd_env <= n {
+        let i = cmd_env - 1;
+        let target: &Term = if mask >> i & 1 == 1 { &xs[i] } else { dev.term(i) };
+        target.borrow_mut().set(Datum::new(Time(1_000_000_007), CA)).unwrap();
     }
     let mut out = Vec::with_capacity(rounds.len());
     for (k, opts) in rounds.iter().enumerate() {
@@ -840,6 +849,17 @@ fn state_engines(ctx: &Ctx, time_only: bool, tag: &str) -> Vec<Eng> {
             explore_sparse(&mut e2, Kind::Diff(m), 2, Mode::State, time_only, budget);
         }
     }
+    // states in the presence of a much newer command on one side
+    for env in 1..=2u8 {
+        CMD_ENV.store(env, std::sync::atomic::Ordering::SeqCst);
+        for &k in &kinds {
+            explore(&mut e1, k, 2, Mode::State, time_only, budget);
+        }
+        explore(&mut e2, Kind::Axle(3), 1, Mode::State, time_only, budget);
+        explore(&mut e2, Kind::Diff(3), 1, Mode::State, time_only, budget);
+    }
+    CMD_ENV.store(0, std::sync::atomic::Ordering::SeqCst);
+    e1.notes.push("two more passes (depth 2) put a command stamped 1e9+7 ns on side 1 resp. side 2 before the state rounds: states and their timestamps must not depend on it".into());
     // second time base: large timestamps a few ns apart
     TIME_BASE.store(1_500_000_000, std::sync::atomic::Ordering::SeqCst);
     for &k in &kinds {
